@@ -56,49 +56,49 @@ type blockState struct {
 
 // Frame is the symbolic execution of one function instance.
 type Frame struct {
-	e        *Enc
-	fn       *ssa.Function
-	pfx      string
-	depth    int
-	top      bool
-	vals     map[ssa.Value]Term
-	lvals    map[ssa.Value]*LVal
-	tuples   map[ssa.Value][]Term
-	closures map[ssa.Value]*closureVal
-	blockOut map[*ssa.BasicBlock]*blockState
-	edgeCond map[[2]int]Term
-	rets     []retPoint
-	panics   []panicPoint
-	loops    map[*ssa.BasicBlock]*loopInfo
-	spec     *FuncSpec
-	entry    *State
-	params   []Term
-	freeVars []Term
-	parent   *Frame // lexically enclosing frame for closures inlined in place
-	defers   []*ssa.Defer
-	deferSt  []deferRec
-	props    []string
-	sites    map[string]Term // site flags
-	siteLookups map[string]func(string) (Term, types.Type, bool)
-	siteRets map[string]sval // result of the call at a site
-	siteAfter map[string]*State // state just after the call at a site returned
+	e              *Enc
+	fn             *ssa.Function
+	pfx            string
+	depth          int
+	top            bool
+	vals           map[ssa.Value]Term
+	lvals          map[ssa.Value]*LVal
+	tuples         map[ssa.Value][]Term
+	closures       map[ssa.Value]*closureVal
+	blockOut       map[*ssa.BasicBlock]*blockState
+	edgeCond       map[[2]int]Term
+	rets           []retPoint
+	panics         []panicPoint
+	loops          map[*ssa.BasicBlock]*loopInfo
+	spec           *FuncSpec
+	entry          *State
+	params         []Term
+	freeVars       []Term
+	parent         *Frame // lexically enclosing frame for closures inlined in place
+	defers         []*ssa.Defer
+	deferSt        []deferRec
+	props          []string
+	sites          map[string]Term // site flags
+	siteLookups    map[string]func(string) (Term, types.Type, bool)
+	siteRets       map[string]sval   // result of the call at a site
+	siteAfter      map[string]*State // state just after the call at a site returned
 	pendingSiteRet string
-	siteStates map[string]*State // state in which a site was reached (single-path sites)
-	siteArgs map[string]sval // "SITE.i": argument i of the call at the site (merged over the paths that reach it)
-	callNo   map[string]int
-	headerIn map[*ssa.BasicBlock]*blockState
-	hdrHavoc map[*ssa.BasicBlock]*State
-	caller   *Frame
-	recoverNil bool
-	noInv      bool
+	siteStates     map[string]*State // state in which a site was reached (single-path sites)
+	siteArgs       map[string]sval   // "SITE.i": argument i of the call at the site (merged over the paths that reach it)
+	callNo         map[string]int
+	headerIn       map[*ssa.BasicBlock]*blockState
+	hdrHavoc       map[*ssa.BasicBlock]*State
+	caller         *Frame
+	recoverNil     bool
+	noInv          bool
 	undefArbitrary bool // spec names without a value at the evaluation point denote an arbitrary value
-	entryPtr   *State
-	privStruct map[ssa.Value]string
-	privAlias  map[ssa.Value]string
-	idx        map[ssa.Value]bool
-	entryVals  map[*ssa.BasicBlock]map[*ssa.Phi]Term
-	dirty      map[string]bool // types whose fields this activation has stored to
-	published  map[ssa.Value]bool
+	entryPtr       *State
+	privStruct     map[ssa.Value]string
+	privAlias      map[ssa.Value]string
+	idx            map[ssa.Value]bool
+	entryVals      map[*ssa.BasicBlock]map[*ssa.Phi]Term
+	dirty          map[string]bool // types whose fields this activation has stored to
+	published      map[ssa.Value]bool
 }
 
 type deferRec struct {
@@ -108,11 +108,11 @@ type deferRec struct {
 }
 
 type loopInfo struct {
-	header *ssa.BasicBlock
-	body   map[*ssa.BasicBlock]bool
-	backs  []*ssa.BasicBlock // preds via back edge
-	fams   map[string]Sort
-	all    bool
+	header  *ssa.BasicBlock
+	body    map[*ssa.BasicBlock]bool
+	backs   []*ssa.BasicBlock // preds via back edge
+	fams    map[string]Sort
+	all     bool
 	ordinal int
 	privAll bool // a closure is called in the loop: captured private locals may change
 }
